@@ -119,4 +119,10 @@ CHECKS = {
   "technique": "TLA+ decision tables evaluated by TLC + exhaustive replay into real handshakes and verifiers",
   "ref": "DESIGN.md 5/C14",
  },
+ "C08": {
+  "text": "AnemoShut models the shutdown sequence with the runtime torn down at any moment (tasks dropped in any order, a dropped handler never deregisters) and TLC checks NoPanic / Released / RepliedOnlyWhenDone; the pre-fix behaviour (assert instead of clean-up) is kept as a spec mutant that TLC refutes. Virtual-time runs shut a loaded network down explicitly, twice, concurrently or by dropping the last handle with RPCs in flight both ways, a hanging outbound dial, an arriving inbound handshake and racing API calls; AnemoConnTrace checks the step order, that the wait respects the configured idle bound (applied = configured), no peers left, and on the application's observations: closed, no peers, address re-bindable at once (fabric + real socket), no live clone of the service, weak reference dead, subscribers drained to end-of-stream, later API calls fail without hanging, other nodes see the loss within the idle timeout; AnemoRpcTrace checks that no call hangs. On real threads the runtime is torn down with handles idle, right after dropping them, with the manager parked at shut.closed / shut.aborted / a handler parked at h.closing (blocking gates + shutdown_background), after shutdown, at random instants, and with a handler stuck in a non-yielding section: a panic, a hang of the teardown (watchdog) or a live service clone after shutdown() returned is a violation.",
+  "note": "Real-thread teardown is gate-driven and randomised, not exhaustive. One genuine defect found here was repaired (fix: commit, see KNOWN_FINDINGS.json); the round-0 observation of a manager spin on runtime drop with idle handles did not reproduce in 100+ trials and is not claimed.",
+  "technique": "TLA+ model checking (TLC) + trace validation of shutdown scenarios + gate-driven runtime teardown on real threads",
+  "ref": "DESIGN.md 5/C08",
+ },
 }
